@@ -15,6 +15,8 @@ import (
 	"time"
 
 	ledger "github.com/formancehq/ledger/internal"
+	"github.com/formancehq/ledger/internal/bus"
+	"github.com/formancehq/ledger/internal/engine/command"
 	"github.com/formancehq/ledger/internal/engine/utils/batching"
 	"github.com/formancehq/ledger/verifx/engx"
 	"github.com/formancehq/ledger/verifx/vx"
@@ -290,6 +292,23 @@ func oracles(sc Scenario, ex Exec) []failure {
 			add("C10", "transaction-reverted-twice", fmt.Sprintf("%d revert entries for transaction %s", n, k))
 		}
 	}
+	// C11: a creation that is refused because its reference is taken -- committed, or reserved by a request still in
+	// flight -- is refused with the conflict error, not with whatever the reservation happened to say
+	for i, r := range sc.Reqs {
+		if r.Reference == "" || ex.Responses[i].OK || !strings.HasPrefix(ex.Responses[i].Err, "other:") {
+			continue
+		}
+		competitor := false
+		for j, q := range sc.Reqs {
+			competitor = competitor || (j != i && q.Reference == r.Reference)
+		}
+		for _, q := range sc.Setup {
+			competitor = competitor || q.Reference == r.Reference
+		}
+		if competitor {
+			add("C11", "reference-taken-not-answered-with-a-conflict", fmt.Sprintf("request %d (reference %q) is refused with %q", i, r.Reference, ex.Responses[i].Err))
+		}
+	}
 	// C07: writes with a key that report success agree on the outcome, and the key is on the entry
 	byIK := map[string][]int{}
 	for i, r := range sc.Reqs {
@@ -308,6 +327,8 @@ func oracles(sc Scenario, ex Exec) []failure {
 					sig += ":idempotency-key-stored-by-another-kind-of-write"
 				}
 				add("C07", sig, fmt.Sprintf("key %q: tx %s and tx %s", k, ex.Responses[is[0]].TxID, ex.Responses[i].TxID))
+			} else if a, b := ex.Responses[is[0]].Content, ex.Responses[i].Content; a != "" && b != "" && a != b {
+				add("C07", "same-key-different-content", fmt.Sprintf("key %q: answered %s, later answered %s", k, a, b))
 			}
 		}
 	}
@@ -886,6 +907,17 @@ func scenarios() []Scenario {
 			xfer(5, "erin", "frank"), ik(xfer(10, "alice", "bob"), "k60"), ik(ref(xfer(10, "carol", "dave"), "r61"), "k61"), ik(xfer(10, "alice", "bob"), "k60"), ik(ref(xfer(10, "carol", "dave"), "r61"), "k61")},
 			Directed: [][]string{
 				{"start(0)", "resume(0)*", "start(1)", "resume(1)*", "start(2)", "resume(2)*", "persist_ok(-1)", "persist_ok(-1)", "resume(0)*", "resume(1)*", "resume(2)*", "start(3)", "resume(3)*", "start(4)", "resume(4)*"},
+			}},
+		// keys longer than any column would hold, with a multi-byte character across the 255/256 byte boundary
+		{Name: "long-idempotency-keys", Setup: []engx.Req{fund("alice", 100)}, Budget: 40, Reqs: []engx.Req{
+			ik(xfer(1, "alice", "bob"), strings.Repeat("k", 254)+"é"), ik(metaA, strings.Repeat("m", 253)+"日本"), ik(xfer(1, "alice", "bob"), strings.Repeat("k", 254)+"é"),
+			ik(xfer(2, "alice", "bob"), strings.Repeat("k", 600))}},
+		// a keyed transaction, its revert, then the same keyed request again: it is answered what it was answered before
+		{Name: "retry-under-the-key-after-the-revert", Setup: []engx.Req{fund("alice", 100)}, Budget: 60, Reqs: []engx.Req{
+			ik(xfer(10, "alice", "bob"), "k70"), {Kind: "revert", RevertID: 1}, ik(xfer(10, "alice", "bob"), "k70"),
+			{Kind: "savemeta", Target: "TRANSACTION", TargetID: "1", Meta: map[string]string{"note": "x"}}, ik(xfer(10, "alice", "bob"), "k70")},
+			Directed: [][]string{
+				{"start(0)", "resume(0)*", "persist_ok(-1)", "resume(0)*", "start(1)", "resume(1)*", "persist_ok(-1)", "resume(1)*", "start(2)", "resume(2)*", "start(3)", "resume(3)*", "persist_ok(-1)", "resume(3)*", "start(4)", "resume(4)*"},
 			}},
 		// three spenders of one balance: one holds the locks, two queue behind it (a release must grant them one by one)
 		{Name: "three-spenders", Setup: []engx.Req{fund("alice", 100)}, Budget: 400, Reqs: []engx.Req{
@@ -1556,6 +1588,86 @@ func batcherShutdown(r *vx.Run) {
 	}
 }
 
+// freeRunningDuplicates: the reservation of a key / a reference is one atomic step that has no yield point inside, so
+// the deterministic scheduler cannot split it. Here the real Commander runs WITHOUT the scheduler (store writes at once)
+// and G goroutines released together submit the same key, or the same reference, round after round: at most one takes effect.
+func freeRunningDuplicates(r *vx.Run) {
+	rounds, G := 400, 8
+	if r.Thorough() {
+		rounds = 6000
+	}
+	disk := &engx.Disk{}
+	store := &engx.Store{D: disk}
+	c := command.New(store, command.NewDefaultLocker(), command.NewCompiler(64), command.NewReferencer(), bus.NewNoOpMonitor())
+	if err := c.Init(context.Background()); err != nil {
+		return
+	}
+	ctx, cancel := context.WithCancel(context.Background())
+	defer cancel()
+	go func() {
+		defer func() { _ = recover() }()
+		c.Run(ctx)
+	}()
+	script := func(i int) ledger.RunScript {
+		return ledger.RunScript{Script: ledger.Script{Plain: fmt.Sprintf("send [USD 1] (\n  source = @world\n  destination = @acc%d\n)\n", i)}}
+	}
+	for round := 0; round < rounds; round++ {
+		byKey := round%2 == 0
+		key, ref := "", ""
+		if byKey {
+			key = fmt.Sprintf("dup-key-%d", round)
+		} else {
+			ref = fmt.Sprintf("dup-ref-%d", round)
+		}
+		before := len(disk.Logs)
+		start := make(chan struct{})
+		var wg sync.WaitGroup
+		var okCount int64
+		var mu sync.Mutex
+		ids := map[string]bool{}
+		for g := 0; g < G; g++ {
+			wg.Add(1)
+			go func(g int) {
+				defer wg.Done()
+				defer func() { _ = recover() }()
+				sc := script(g)
+				sc.Reference = ref
+				<-start
+				tx, err := c.CreateTransaction(context.Background(), command.Parameters{IdempotencyKey: key}, sc)
+				if err == nil && tx != nil {
+					mu.Lock()
+					okCount++
+					ids[tx.ID.String()] = true
+					mu.Unlock()
+				}
+			}(g)
+		}
+		close(start)
+		done := make(chan struct{})
+		go func() { wg.Wait(); close(done) }()
+		select {
+		case <-done:
+		case <-time.After(20 * time.Second):
+			r.Count("free-running:timeout")
+			return
+		}
+		added := len(disk.Logs) - before
+		in := map[string]any{"round": round, "goroutines": G, "same": map[bool]string{true: "idempotency key", false: "reference"}[byKey]}
+		if added > 1 {
+			if byKey {
+				r.FailP("C07", "free-running:idempotency-key-took-effect-more-than-once", in, fmt.Sprintf("%d entries written under one key by %d concurrent duplicates", added, G), G)
+			} else {
+				r.FailP("C11", "free-running:reference-committed-more-than-once", in, fmt.Sprintf("%d transactions committed with one reference by %d concurrent duplicates", added, G), G)
+			}
+		}
+		if byKey && len(ids) > 1 {
+			r.FailP("C07", "free-running:successes-under-one-key-report-different-transactions", in, fmt.Sprint(ids), G)
+		}
+		r.Count("free-running-duplicates")
+	}
+	r.Case("", map[string]any{"free_running_rounds": rounds}, "free-running", true)
+}
+
 func main() {
 	r := vx.Start("C02", "engine")
 	r.Cases("From FL Require Import Engine.Corr.\nClose Scope Z_scope.\nOpen Scope nat_scope.\n", "ecase", 120)
@@ -1720,6 +1832,9 @@ func main() {
 			}
 		}
 		r.Sum.Notes = append(r.Sum.Notes, fmt.Sprintf("%s: %d schedules, %d harness faults, exhaustive=%v", sc.Name, n, faults, exhaustive))
+	}
+	if only == "" || only == "free-running" {
+		freeRunningDuplicates(r)
 	}
 	if only == "" || only == "batcher-direct" {
 		batcherDirect(r)
